@@ -492,11 +492,34 @@ theorem am_mirrorL_take (L : Int) (l : List Iv) (c : Nat) :
   simp only [mirrorL]
   rw [List.take_reverse, List.map_drop, List.length_map]
 
-theorem am_sentinel_min (L x ext int : Int) (hpos : ext ≠ -1 ∨ int ≠ -1) (he : PosOK L ext) (hi : PosOK L int)
-    (h : SentinelInert L x ext int) :
-    min (iabs (L + 1 - x - mirrorPos L ext)) (iabs (L + 1 - x - mirrorPos L int)) = min (iabs (x - ext)) (iabs (x - int)) := by
-  simp only [SentinelInert, PosOK, mirrorPos, iabs] at *
-  grind
+/-- the distance of `detect_reference_exons_beyond_polya / before_polyt` (after fix a2ae069 an absent position is
+    infinitely far) does not see the reflection -/
+theorem am_tailDist_mirror (L a ext int : Int) (he : PosOK L ext) (hi : PosOK L int) :
+    minInf (distOrInf (L + 1 - a) (mirrorPos L ext)) (distOrInf (L + 1 - a) (mirrorPos L int)) = minInf (distOrInf a ext) (distOrInf a int) := by
+  simp only [am_distOrInf_mirror L a ext he, am_distOrInf_mirror L a int hi]
+
+theorem am_countBeyond_le (pos : Int) (l : List Iv) : countBeyond pos l ≤ l.length := by
+  induction l with
+  | nil => simp [countBeyond]
+  | cons e es ih => simp only [countBeyond]; split <;> simp <;> omega
+
+theorem am_tailDist_absent (a : Int) : minInf (distOrInf a (-1)) (distOrInf a (-1)) = none := by
+  simp [minInf, distOrInf]
+
+/-- no position at all: nothing is detected -/
+theorem am_detectBeyond_absent (p : Params) (iso : List Iv) (evs : List Event) :
+    detectBeyondPolya p iso (-1) (-1) evs = some (evs, -1, -1) := by
+  simp only [detectBeyondPolya, am_tailDist_absent, missedTerminalOk]
+  generalize hc : countBeyond _ iso.reverse = c
+  have hle : c ≤ iso.length := by rw [← hc]; simpa using am_countBeyond_le _ iso.reverse
+  by_cases c1 : c = iso.length ∨ c = 0
+  · simp [c1]
+  · simp only [c1, if_false]
+    rw [am_pyGet?_neg_rev iso c (by omega) (by omega)]
+    have h1 : c < iso.reverse.length := by simp; omega
+    have h2 : iso ≠ [] := by intro h; simp [h] at h1
+    rw [List.getElem?_eq_getElem h1, List.getLast?_eq_some_getLast h2]
+    simp
 
 theorem am_termMis_events (L : Int) (n c : Nat) :
     (List.range c).map (fun (i : Nat) => ({ ty := .terminal_exon_misalignment_left, isoRegion := ((i : Int), (i : Int)) } : Event))
@@ -510,9 +533,9 @@ theorem am_termMis_events (L : Int) (n c : Nat) :
   congr 1
   ext <;> simp <;> omega
 
-theorem am_detectBeyond_mirror (L : Int) (p : Params) (iso : List Iv) (ext int : Int) (evs : List Event)
+theorem am_detectBeyond_mirror_pos (L : Int) (p : Params) (iso : List Iv) (ext int : Int) (evs : List Event)
     (hpos : ext ≠ -1 ∨ int ≠ -1) (he : PosOK L ext) (hi : PosOK L int)
-    (hend : ∀ e, iso.getLast? = some e → e.2 ≠ -1) (hin : SentinelInertBeyond L iso ext int) :
+    (hend : ∀ e, iso.getLast? = some e → e.2 ≠ -1) :
     detectBeforePolyt p (mirrorL L iso) (mirrorPos L ext) (mirrorPos L int) (evs.map (mirrorEvent L iso.length))
       = (detectBeyondPolya p iso ext int evs).map
           (fun r => (r.1.map (mirrorEvent L iso.length), mirrorPos L r.2.1, mirrorPos L r.2.2)) := by
@@ -522,8 +545,7 @@ theorem am_detectBeyond_mirror (L : Int) (p : Params) (iso : List Iv) (ext int :
     grind
   simp only [detectBeforePolyt, detectBeyondPolya, hp', mirrorL_length]
   rw [mirrorL_eq_map_reverse, am_countBefore_mirror]
-  simp only [SentinelInertBeyond] at hin
-  generalize hc : countBeyond (if int ≠ -1 then int else ext) iso.reverse = c at hin ⊢
+  generalize hc : countBeyond (if int ≠ -1 then int else ext) iso.reverse = c
   by_cases c1 : c = iso.length ∨ c = 0
   · have c1' : c = 0 ∨ c = iso.length := by omega
     simp [c1, c1']
@@ -536,7 +558,7 @@ theorem am_detectBeyond_mirror (L : Int) (p : Params) (iso : List Iv) (ext int :
         | nil => simp [countBeyond]
         | cons e es ih => simp only [countBeyond]; split <;> simp <;> omega
       simpa using this _ iso.reverse
-    rw [am_pyGet?_neg_rev iso c (by omega) (by omega)] at hin ⊢
+    rw [am_pyGet?_neg_rev iso c (by omega) (by omega)]
     simp only [List.getElem?_map, List.head?_map, List.head?_reverse]
     cases hb : iso.reverse[c]? with
     | none => simp
@@ -544,23 +566,48 @@ theorem am_detectBeyond_mirror (L : Int) (p : Params) (iso : List Iv) (ext int :
       cases hl : iso.getLast? with
       | none => simp
       | some lastE =>
-        have hib : SentinelInert L b.2 ext int := by
-          simp only [hb] at hin
-          rcases hin with q | q | q
-          · exact absurd (Or.inl q) c1
-          · exact absurd (Or.inr q) c1
-          · exact q
         have e1 : intervalsTotalLength (List.take c (List.map (mirrorIv L) iso.reverse))
             = intervalsTotalLength (iso.drop (iso.length - c)) := by
           rw [← mirrorL_eq_map_reverse, am_mirrorL_take, intervalsTotalLength_mirror]
-        -- since the fix of the sentinel distance (absent position = infinitely far) the distances are mirror invariant
-        -- without `hib` (the `SentinelInert…` hypothesis is kept in the statement for the callers)
+        have e2 := am_tailDist_mirror L b.2 ext int he hi
         have e3 : mirrorPos L lastE.2 = L + 1 - lastE.2 := by
           simp only [mirrorPos, hend lastE hl, if_false]
-        simp only [Option.map_some, e1, mirrorIv_fst, am_distOrInf_mirror L b.2 ext he, am_distOrInf_mirror L b.2 int hi]
+        simp only [Option.map_some, e1, mirrorIv_fst, e2]
         split
         · simp only [Option.map_some, List.map_append, am_termMis_events L iso.length c, e3]
         · rfl
+
+theorem am_detectBefore_absent (p : Params) (iso : List Iv) (evs : List Event) :
+    detectBeforePolyt p iso (-1) (-1) evs = some (evs, -1, -1) := by
+  simp only [detectBeforePolyt, am_tailDist_absent, missedTerminalOk]
+  generalize hc : countBefore _ iso = c
+  have hle : c ≤ iso.length := by
+    rw [← hc]
+    have : ∀ (pos : Int) (l : List Iv), countBefore pos l ≤ l.length := by
+      intro pos l; induction l with
+      | nil => simp [countBefore]
+      | cons e es ih => simp only [countBefore]; split <;> simp <;> omega
+    exact this _ _
+  by_cases c1 : c = 0 ∨ c = iso.length
+  · simp [c1]
+  · simp only [c1, if_false]
+    have h1 : c < iso.length := by omega
+    have h2 : iso ≠ [] := by intro h; simp [h] at h1
+    rw [List.getElem?_eq_getElem h1, List.head?_eq_some_head h2]
+    simp
+
+/-- `detect_reference_exons_beyond_polya ↔ before_polyt`; no hypothesis beyond the sentinel collisions -/
+theorem am_detectBeyond_mirror (L : Int) (p : Params) (iso : List Iv) (ext int : Int) (evs : List Event)
+    (he : PosOK L ext) (hi : PosOK L int) (hend : ∀ e, iso.getLast? = some e → e.2 ≠ -1) :
+    detectBeforePolyt p (mirrorL L iso) (mirrorPos L ext) (mirrorPos L int) (evs.map (mirrorEvent L iso.length))
+      = (detectBeyondPolya p iso ext int evs).map
+          (fun r => (r.1.map (mirrorEvent L iso.length), mirrorPos L r.2.1, mirrorPos L r.2.2)) := by
+  by_cases hpos : ext ≠ -1 ∨ int ≠ -1
+  · exact am_detectBeyond_mirror_pos L p iso ext int evs hpos he hi hend
+  · have h1 : ext = -1 := by omega
+    have h2 : int = -1 := by omega
+    subst h1; subst h2
+    simp [mirrorPos, am_detectBeyond_absent, am_detectBefore_absent]
 
 theorem am_mirrorL_drop (L : Int) (l : List Iv) (c : Nat) (h : c ≤ l.length) :
     (mirrorL L l).drop (l.length - c) = mirrorL L (l.take c) := by
@@ -584,9 +631,9 @@ theorem am_countBefore_le (pos : Int) (l : List Iv) : countBefore pos l ≤ l.le
   | nil => simp [countBefore]
   | cons e es ih => simp only [countBefore]; split <;> simp <;> omega
 
-theorem am_detectBefore_mirror (L : Int) (p : Params) (iso : List Iv) (ext int : Int) (evs : List Event)
+theorem am_detectBefore_mirror_pos (L : Int) (p : Params) (iso : List Iv) (ext int : Int) (evs : List Event)
     (hpos : ext ≠ -1 ∨ int ≠ -1) (he : PosOK L ext) (hi : PosOK L int)
-    (hstart : ∀ e, iso.head? = some e → e.1 ≠ -1) (hin : SentinelInertBefore L iso ext int) :
+    (hstart : ∀ e, iso.head? = some e → e.1 ≠ -1) :
     detectBeyondPolya p (mirrorL L iso) (mirrorPos L ext) (mirrorPos L int) (evs.map (mirrorEvent L iso.length))
       = (detectBeforePolyt p iso ext int evs).map
           (fun r => (r.1.map (mirrorEvent L iso.length), mirrorPos L r.2.1, mirrorPos L r.2.2)) := by
@@ -596,8 +643,7 @@ theorem am_detectBefore_mirror (L : Int) (p : Params) (iso : List Iv) (ext int :
     grind
   simp only [detectBeforePolyt, detectBeyondPolya, hp', mirrorL_length]
   rw [mirrorL_reverse, am_countBeyond_mirror]
-  simp only [SentinelInertBefore] at hin
-  generalize hc : countBefore (if int ≠ -1 then int else ext) iso = c at hin ⊢
+  generalize hc : countBefore (if int ≠ -1 then int else ext) iso = c
   by_cases c1 : c = 0 ∨ c = iso.length
   · have c1' : c = iso.length ∨ c = 0 := by omega
     simp [c1, c1']
@@ -612,20 +658,27 @@ theorem am_detectBefore_mirror (L : Int) (p : Params) (iso : List Iv) (ext int :
       cases hl : iso.head? with
       | none => simp
       | some firstE =>
-        have hib : SentinelInert L b.1 ext int := by
-          simp only [hb] at hin
-          rcases hin with q | q | q
-          · exact absurd (Or.inl q) c1
-          · exact absurd (Or.inr q) c1
-          · exact q
         have e1 : intervalsTotalLength (List.drop (iso.length - c) (mirrorL L iso)) = intervalsTotalLength (iso.take c) := by
           rw [am_mirrorL_drop L iso c hle, intervalsTotalLength_mirror]
+        have e2 := am_tailDist_mirror L b.1 ext int he hi
         have e3 : mirrorPos L firstE.1 = L + 1 - firstE.1 := by
           simp only [mirrorPos, hstart firstE hl, if_false]
-        simp only [Option.map_some, e1, mirrorIv_snd, am_distOrInf_mirror L b.1 ext he, am_distOrInf_mirror L b.1 int hi]
+        simp only [Option.map_some, e1, mirrorIv_snd, e2]
         split
         · simp only [Option.map_some, List.map_append, am_termMis_events' L iso.length c, e3]
         · rfl
+
+theorem am_detectBefore_mirror (L : Int) (p : Params) (iso : List Iv) (ext int : Int) (evs : List Event)
+    (he : PosOK L ext) (hi : PosOK L int) (hstart : ∀ e, iso.head? = some e → e.1 ≠ -1) :
+    detectBeyondPolya p (mirrorL L iso) (mirrorPos L ext) (mirrorPos L int) (evs.map (mirrorEvent L iso.length))
+      = (detectBeforePolyt p iso ext int evs).map
+          (fun r => (r.1.map (mirrorEvent L iso.length), mirrorPos L r.2.1, mirrorPos L r.2.2)) := by
+  by_cases hpos : ext ≠ -1 ∨ int ≠ -1
+  · exact am_detectBefore_mirror_pos L p iso ext int evs hpos he hi hstart
+  · have h1 : ext = -1 := by omega
+    have h2 : int = -1 := by omega
+    subst h1; subst h2
+    simp [mirrorPos, am_detectBeyond_absent, am_detectBefore_absent]
 
 theorem am_shiftPolya_mirrorPos (L : Int) (ex : List Iv) (cnt : Nat) (x : Int) (hx : PosOK L x) :
     C01.shiftPolyt (mirrorL L ex) cnt (mirrorPos L x)
@@ -862,7 +915,7 @@ theorem am_polyaStep_mirror (L : Int) (p : Params) (iso read : List Iv) (pa : Po
       | none => simp
       | some int1 =>
         simp only [hs1, hs2] at hsh
-        obtain ⟨n1, n2, hin⟩ := hsh
+        obtain ⟨n1, n2⟩ := hsh
         have s1 : pa.extA = -1 → ext1 = -1 := by
           intro c; rw [c, (am_shiftPoly_sentinel read _).1] at hs1; simpa using hs1.symm
         have s2 : pa.intA = -1 → int1 = -1 := by
@@ -879,7 +932,7 @@ theorem am_polyaStep_mirror (L : Int) (p : Params) (iso read : List Iv) (pa : Po
           have : PosOK L lastE.2 := fun _ => hend.2
           exact ⟨this, this, Or.inl hend.1⟩
         · simp only [hm, if_false]
-          refine ⟨am_detectBeyond_mirror L p iso ext1 int1 _ hpos1 pe pi (fun e he' => ?_) hin, ?_⟩
+          refine ⟨am_detectBeyond_mirror L p iso ext1 int1 _ pe pi (fun e he' => ?_), ?_⟩
           · rw [hl] at he'; simp only [Option.some.injEq] at he'; subst he'; exact hend.1
           · intro r hr
             rcases am_detectBeyond_out p iso ext1 int1 _ r hr with ⟨a, b⟩ | ⟨l, a, b, c⟩
@@ -953,7 +1006,7 @@ theorem am_polytStep_mirror (L : Int) (p : Params) (iso read : List Iv) (pa : Po
       | none => simp
       | some int1 =>
         simp only [hs1, hs2] at hsh
-        obtain ⟨n1, n2, hin⟩ := hsh
+        obtain ⟨n1, n2⟩ := hsh
         have s1 : pa.extT = -1 → ext1 = -1 := by
           intro c; rw [c, (am_shiftPoly_sentinel read _).2] at hs1; simpa using hs1.symm
         have s2 : pa.intT = -1 → int1 = -1 := by
@@ -970,7 +1023,7 @@ theorem am_polytStep_mirror (L : Int) (p : Params) (iso read : List Iv) (pa : Po
           have : PosOK L firstE.1 := fun _ => hend.2
           exact ⟨this, this, Or.inl hend.1⟩
         · simp only [hm, if_false]
-          refine ⟨am_detectBefore_mirror L p iso ext1 int1 _ hpos1 pe pi (fun e he' => ?_) hin, ?_⟩
+          refine ⟨am_detectBefore_mirror L p iso ext1 int1 _ pe pi (fun e he' => ?_), ?_⟩
           · rw [hl] at he'; simp only [Option.some.injEq] at he'; subst he'; exact hend.1
           · intro r hr
             rcases am_detectBefore_out p iso ext1 int1 _ r hr with ⟨a, b⟩ | ⟨l, a, b, c⟩
